@@ -146,6 +146,13 @@ class C07(Harness):
         for sid in ('S3', 'S4', 'S6') if tier == 'quick' else ('S3', 'S4', 'S6', 'S8', 'S9', 'S13'):
             for lines in LINES_Q[10:]:
                 us.append({'kind': 'text', 'lines': lines, 'schema': sid})
+        # schemas whose keyed '+' defaults / list defaults are used by several sections of one text
+        for sid in ('S15', 'S5', 'S9'):
+            for lines in LINES_Q[10:13]:
+                us.append({'kind': 'text', 'lines': lines, 'schema': sid})
+        # ... and by two loads against ONE schema object
+        for sid in ('S15', 'S5', 'S9', 'S13'):
+            us.append({'kind': 'twice', 'lines': [['<', 2, '/>'], [2, ' ', 1]], 'schema': sid})
         for i, g in enumerate(graphs()):
             us.append({'kind': 'include', 'graph': i})
         # the validator command on the same texts (configuration on standard input)
@@ -156,12 +163,15 @@ class C07(Harness):
         # without importing it (invalid whatever was checked before it in the same run)
         for pattern in ('', 'v', 'i', 'vi', 'ii', 'iv', 'iii', 'ivi', 'vv', 'pu', 'up', 'pvu', 'pp', 'upu'):
             us.append({'kind': 'validator-files', 'files': pattern})
+        for q in ('my dir', '100%20x', 'a#b', 'd\u00e9j\u00e0 vu %s'):
+            us.append({'kind': 'validator-files', 'files': 'iv', 'q': q})
+            us.append({'kind': 'validator-files', 'files': 'up', 'q': q})
         for line in (INCL_Q if tier == 'quick' else INCL_T):
             us.append({'kind': 'inclarg', 'lines': [['kc v'], line]})
         return us
 
     def inputs(self, eng, unit):
-        if unit['kind'] in ('text', 'inclarg', 'validator'):
+        if unit['kind'] in ('text', 'inclarg', 'validator', 'twice'):
             _, holes = common.build_lines(self, eng, unit['lines'])
             return holes
         if unit['kind'] == 'override':
@@ -175,6 +185,16 @@ class C07(Harness):
                 lines = common.assemble(unit['lines'], inp)
                 with _symbolic_env(), P.mem_resources({}), c12pkgs():
                     r = P.run_load(XML[unit.get('schema', 'S2')], lines, url=P.MAIN)
+            elif unit['kind'] == 'twice':
+                # two loads of the same text against one schema object
+                lines = common.assemble(unit['lines'], inp)
+                with P.mem_resources({}):
+                    P._SCHEMA_CACHE.clear()
+                    r = P.run_load(XML[unit['schema']], lines, url=P.MAIN, cache_schema=True)
+                    r2 = P.run_load(XML[unit['schema']], lines, url=P.MAIN, cache_schema=True)
+                    P._SCHEMA_CACHE.clear()
+                if r[0] != 'crash':
+                    r = r2
             elif unit['kind'] == 'validator':
                 return self._validator(unit, inp)
             elif unit['kind'] == 'validator-files':
@@ -233,6 +253,11 @@ class C07(Harness):
         import tempfile
         from ZConfig import validator
         d = tempfile.mkdtemp(prefix='vfc07_')
+        root = d
+        if 'q' in unit:
+            # a directory whose name needs quoting in a file: URL (blank, '%', '#', non-ASCII)
+            d = os.path.join(d, unit['q'])
+            os.makedirs(d)
         old_in, old_err = sys.stdin, sys.stderr
         sys.stderr = err = io.StringIO()
         sys.stdin = io.StringIO('')
@@ -268,7 +293,7 @@ class C07(Harness):
             return ('ok' if rc == 0 else 'reject', rc, ok)
         finally:
             sys.stdin, sys.stderr = old_in, old_err
-            shutil.rmtree(d, ignore_errors=True)
+            shutil.rmtree(root, ignore_errors=True)
 
     def expect(self, unit, inp, real):
         return ('no-internal-error',)
